@@ -60,6 +60,11 @@ class Must:
                     x = fn.e(el)
                     r = elem_fx(el, x) if (elem_fx and x) else None
                     lst.append((el, r))
+                elif isinstance(el, dict) and elem_fx:
+                    # pseudo elements: automatic-object destructors / ctor initialisers
+                    r = elem_fx(None, el)
+                    if r:
+                        lst.append((None, r))
             self.fx[b["id"]] = lst
         self.edge_cache = {}
         self.IN, self.OUT = forward(fn, init, self._transfer, self._join, edge=self._edge)
